@@ -149,6 +149,24 @@ CLAIMS = {
         technique="static analysis: abstract evaluation of codec pairs + independent reference decoder + format-order scan (ast)",
         ref="DESIGN.md §3 C16",
     ),
+    "C17": dict(
+        text=(
+            "Decides C17 with a static may-raise analysis of every function on the decode path (all Combinator.deserialize "
+            "methods of problem_serializer and puzzle modules, deserialize_problem[_as_url], get_puzzle_info_from_url, every "
+            "deserialize_*, compass.parse_puzz_link_url) plus a finite-quotient evaluation: (EXC-1) each non-slice subscript of "
+            "the input text is proved in bounds by Fourier-Motzkin from the dominating guards and the entry contract "
+            "0 <= idx <= len(data); (EXC-2) literal-dict subscripts have their key set proved inside the keys; (EXC-3) every "
+            "assert is entailed by guards or is one of three listed internal invariants; (EXC-4) no direct recursion; (EXC-5) "
+            "no division by an unguarded URL integer; (EXC-6) int() of a multi-character input slice only after "
+            "character-class validation; (EXC-7) each leaf combinator, each bundled puzzle combinator, Rooms/heyawake on five "
+            "boards, the URL entry points and the compass parser are evaluated on all short strings over one representative "
+            "per character class: every outcome must be None, ValueError, or a value that serializes and decodes back to "
+            "itself. The unvalidated legacy parser compass.parse_puzz_link_url is recorded as known findings."
+        ),
+        note="Trusted: the guard-fact walker and Fourier-Motzkin prover; the abstract evaluator; the character-class alphabet. Non-termination and memory are not decided.",
+        technique="static analysis: may-raise analysis over guard facts with linear entailment + finite-quotient abstract evaluation (ast)",
+        ref="DESIGN.md §3 C17",
+    ),
 }
 
 NOT_APPLICABLE = {
